@@ -230,15 +230,20 @@ fn gen_c13_short(tier: &str, rng: &mut Rng, cases: &mut Vec<Case>) {
     // dd, written compactly and indented: white space between the block tags is not content
     let nl = if tier == "thorough" { 12000 } else { 1200 };
     for gi in 0..nl {
-        let nitems = *rng.pick(&[1usize, 2, 3, 5, 6, 7, 8, 9, 10, 12]);
+        let nitems = *rng.pick(&[0usize, 1, 2, 3, 5, 6, 7, 8, 9, 10, 12]);
         let start = if rng.chance(1, 3) { Some(*rng.pick(&[7i64, 8, 9, 97, 98, 99, 0, -3])) } else { None };
         let ordered = rng.chance(3, 4);
         let items: Vec<String> = (0..nitems).map(|k| format!("<li>{}</li>", ["ab c", "x", "de", "f g h"][(k + gi) % 4])).collect();
         let (lo, lc) = if ordered { (match start { Some(s) => format!("<ol start=\"{}\">", s), None => "<ol>".to_string() }, "</ol>") } else { ("<ul>".to_string(), "</ul>") };
         let (oo, oc) = *rng.pick(&[("<blockquote>", "</blockquote>"), ("<ul><li>", "</li></ul>"), ("<ol><li>", "</li></ol>"), ("<dl><dd>", "</dd></dl>"), ("<div>", "</div>"), ("<blockquote><blockquote>", "</blockquote></blockquote>")]);
         let ind = *rng.pick(&["\n", "\n  ", "\n\t", " ", "\r\n    "]);
-        let base = format!("{}{}{}{}{}", oo, lo, items.concat(), lc, oc);
-        let variant = format!("{}{}{}{}{}{}{}{}", oo, ind, lo, items.iter().map(|i| format!("{}{}", ind, i)).collect::<String>(), ind, lc, ind, oc);
+        let (pre_t, post_t) = if nitems == 0 { ("a", "b") } else { ("", "") };
+        let base = format!("{}{}{}{}{}{}{}", pre_t, oo, lo, items.concat(), lc, oc, post_t);
+        let variant = if nitems == 0 {
+            format!("{}{}{}{}{}{}{}", pre_t, oo, lo, ind, lc, oc, post_t)
+        } else {
+            format!("{}{}{}{}{}{}{}{}", oo, ind, lo, items.iter().map(|i| format!("{}{}", ind, i)).collect::<String>(), ind, lc, ind, oc)
+        };
         let mut cfg = Cfg { deco: *rng.pick(&[0u8, 2]), ..Default::default() };
         cfg.overflow = rng.chance(1, 2);
         let w = rng.range(1, 14);
@@ -295,6 +300,18 @@ fn check_c13(cases: &[Case], results: &[Option<RunResult>]) -> Vec<Violation> {
                     empty_link
                 } {
                     Some("empty_link_with_markup")
+                } else if cases[b].slice == "indented_lists" && {
+                    // a list without any item: with white space inside it is still a block, without
+                    // it is nothing (emptiness is judged before the white space is dropped)
+                    let mut empty_list = false;
+                    walk(&doma, &mut |n, _| {
+                        if (n.is("ul") || n.is("ol") || n.is("dl")) && !n.kids().iter().any(|k| matches!(k, DNode::El { .. })) {
+                            empty_list = true;
+                        }
+                    });
+                    empty_list
+                } {
+                    Some("empty_list_with_whitespace")
                 } else {
                     None
                 };
@@ -638,6 +655,35 @@ fn gen_c08(tier: &str, rng: &mut Rng) -> Vec<Case> {
         let w = rng.range(10, 120);
         let id = cases.len();
         cases.push(mk_case(id, 0, cfg, w, html.into_bytes(), Some(0), g(""), if tables { "tables" } else { "flow" }));
+    }
+    // links in children of a <ul> that are not items (a list nested directly in a list, a
+    // paragraph or a bare link between the items): rendered like any other content
+    let nl = if tier == "thorough" { 8000 } else { 600 };
+    for k in 0..nl {
+        let mut n = 0;
+        let mut link = |rng: &mut Rng| -> String {
+            n += 1;
+            format!("<a href=\"http://l{}.example/{}\">w{}x{}</a>", n, "p".repeat(rng.below(6)), k, n)
+        };
+        let mut html = format!("<p>See {}.</p><ul>", link(rng));
+        for _ in 0..rng.range(1, 4) {
+            match rng.below(6) {
+                0 => html.push_str(&format!("<ul><li>{} here</li></ul>", link(rng))),
+                1 => html.push_str(&format!("<p>{}</p>", link(rng))),
+                2 => html.push_str(&link(rng)),
+                3 => html.push_str(&format!("<div>in {}</div>", link(rng))),
+                4 => html.push_str("<li>plain</li>"),
+                _ => html.push_str(&format!("<li>{}</li>", link(rng))),
+            }
+            if rng.chance(1, 3) {
+                html.push('\n');
+            }
+        }
+        html.push_str(&format!("</ul><p>And {}.</p>", link(rng)));
+        let mut cfg = Cfg { deco: *rng.pick(&[0u8, 1, 2, 3]), ..Default::default() };
+        cfg.footnotes = 1;
+        let id = cases.len();
+        cases.push(mk_case(id, 0, cfg, rng.range(20, 100), html.into_bytes(), Some(0), g(""), "loose_in_ul"));
     }
     cases
 }
@@ -1046,6 +1092,34 @@ fn gen_c09(tier: &str, rng: &mut Rng) -> Vec<Case> {
         c.slice = "pre_pieces";
         cases.push(c);
     }
+    // annotated text in a table cell: the padding of the cell (and the other cell, and the bars)
+    // is not inside the element, so no more characters carry the annotation than the element has
+    let na = if tier == "thorough" { 10000 } else { 1000 };
+    for _ in 0..na {
+        let (open, close, kind) = *rng.pick(&[("<pre>", "</pre>", 0i64), ("<em>", "</em>", 1), ("<code>", "</code>", 2), ("<strong>", "</strong>", 3), ("<a href=\"u\">", "</a>", 4), ("<s>", "</s>", 5)]);
+        let words = ["aaaa", "bbbbbbbb", "cc", "d", "eeeeee", "ff"];
+        let mut body = String::new();
+        for j in 0..rng.range(2, 5) {
+            if j > 0 {
+                body.push(' ');
+            }
+            body.push_str(*rng.pick(&words));
+        }
+        if rng.chance(1, 3) {
+            body.push(' ');
+        }
+        let other = *rng.pick(&["1234 5678 90 1234 5678", "12", "123456789", ""]);
+        let html = if rng.chance(1, 2) {
+            format!("<table><tr><td>{}{}{}</td><td>{}</td></tr></table>", open, body, close, other)
+        } else {
+            format!("<table><tr><td>{}</td><td>{}{}{}</td></tr><tr><td>3</td><td>4</td></tr></table>", other, open, body, close)
+        };
+        let cfg = Cfg { deco: 2, ..Default::default() };
+        let id = cases.len();
+        let mut c = mk_case(id, 1, cfg, rng.range(4, 30), html.into_bytes(), Some(1), Meta::G { role: "annot_cell", strs: vec![body], nums: vec![kind] }, "annot_cells");
+        c.group = cases.len();
+        cases.push(c);
+    }
     cases
 }
 fn parse_inline_colour(style: &str) -> Option<(bool, (u8, u8, u8))> {
@@ -1087,6 +1161,34 @@ fn check_c09(cases: &[Case], results: &[Option<RunResult>]) -> Vec<Violation> {
             Outcome::Lines(l) => l,
             _ => continue,
         };
+        if c.meta.role() == "annot_cell" {
+            let kind = c.meta.nums()[0];
+            let has = |tag: &Vec<Ann>| tag.iter().any(|a| match (kind, a) {
+                (0, Ann::Pre(_)) | (1, Ann::Em) | (2, Ann::Code) | (3, Ann::Strong) | (4, Ann::Link(_)) | (5, Ann::Strike) => true,
+                _ => false,
+            });
+            let limit = c.meta.strs()[0].chars().count();
+            let mut count = 0usize;
+            let mut stray: Option<String> = None;
+            for l in lines {
+                for e in l {
+                    if let Elem::Str(st, tag) = e {
+                        if has(tag) {
+                            count += st.chars().filter(|ch| *ch != '\u{336}').count();
+                            if st.chars().any(|ch| ch.is_ascii_digit() || ch == '│' || ch == '─') {
+                                stray = Some(st.clone());
+                            }
+                        }
+                    }
+                }
+            }
+            if let Some(st) = stray {
+                v.push(viol(i, "text outside an element carries its annotation", format!("{:?} in {:?}", st, lines), None));
+            } else if count > limit {
+                v.push(viol(i, "more characters carry an element's annotation than the element has (cell padding annotated)", format!("{} annotated characters, the element has {}: {:?}", count, limit, lines), None));
+            }
+            continue;
+        }
         if !r.regular {
             continue;
         }
